@@ -141,6 +141,8 @@ Inductive case :=
    next to what the full wallet (built from the seed) gives at export-path ++ sub-path *)
 | Watch (o : oracles) (w : wspec) (export_path : list Z) (xpub : str) (sub : list Z)
         (ob : res tree) (full : res tree)
+(* Wasabi export of a wallet re-imported from an extended PRIVATE key string *)
+| WasX (o : oracles) (xprv : str) (ob : res tree)
 (* private-data requests on a watch-only wallet: observed dict {watch_only, bip85, xprv, keys, row} for the node at `sub` *)
 | WatchPriv (o : oracles) (xpub : str) (sub : list Z) (purpose : Z) (ob : res tree).
 
@@ -187,6 +189,26 @@ Definition check_case (c : case) : Z :=
             (* and nothing in the whole answer decodes to a private-key encoding *)
             && forallb (fun l => negb (looks_private (sha256 o) l)) (leaves t)
         | Err => true
+        end in
+      verdict agrees prop
+  | WasX o xprv ob =>
+      let m :=
+        do we <- from_extended_key A (sha256 o) xprv;
+        let w := {| w_master := fst we; w_testnet := snd we; w_mnemonic := None; w_password := None |} in
+        wasabi C (hm o) (sha o) (h160 o) A w in
+      let agrees := beq_res beq_tree m ob in
+      let prop :=
+        match decode_base58_checksum A (sha256 o) xprv, ob with
+        | Ok b, Ok t =>
+            match find (fun e => snd e =? be2z (firstn 4 b)) slip132 with
+            | Some (_, _, net, _) =>
+                match b58dec o (tstr (tget (k "ExtPubKey") t)) with
+                | Ok xb => be2z (firstn 4 xb) =? (if net then 70617039 else 76067358)
+                | Err => false end
+            | None => false
+            end
+        | _, Err => true
+        | Err, Ok _ => false
         end in
       verdict agrees prop
   | Gen o ws account lo hi ob =>
